@@ -491,7 +491,10 @@ func (fr *Frame) unop(x *ssa.UnOp, st *State, g string) {
 		fc.assume(g, tc.wf(fr.vals[x].t, x.Type(), fc.watermark(st)))
 		if strings.HasPrefix(ld, "(select H0_") {
 			// read straight from a component of the ENTRY heap: whatever it holds was allocated before entry
-			fc.assume(g, tc.wf(fr.vals[x].t, x.Type(), compInit("W")))
+			// ... provided the CELL itself existed at entry: a cell of an object allocated later by a callee with `modifies nothing`
+			// is also read from the entry component, but what it holds was allocated by that callee (fix: the unconditional form
+			// contradicted `fresh(result.f)` clauses of such callees)
+			fc.assume(g, implies(app("<", app("root", v.t), compInit("W")), tc.wf(fr.vals[x].t, x.Type(), compInit("W"))))
 		}
 	case token.NOT:
 		fr.setVal(x, "Bool", not(v.t))
